@@ -100,6 +100,10 @@ impl FixtureDatabase {
 
         // Use WalkDir with filter to skip large/irrelevant directories
         let walker = WalkDir::new(root_path).into_iter().filter_entry(|entry| {
+            // The workspace root itself is never skipped, whatever it is called
+            if entry.depth() == 0 {
+                return true;
+            }
             // Allow files to pass through
             if entry.file_type().is_file() {
                 return true;
@@ -135,7 +139,9 @@ impl FixtureDatabase {
             let path = entry.path();
 
             // Skip files in filtered directories (shouldn't happen with filter_entry, but just in case)
-            if path.components().any(|c| {
+            // Only components below the workspace root count: where the workspace lives must not matter
+            let below_root = path.strip_prefix(root_path).unwrap_or(path);
+            if below_root.components().any(|c| {
                 c.as_os_str()
                     .to_str()
                     .is_some_and(Self::should_skip_directory)
